@@ -1,6 +1,6 @@
 (* SortP.v — proofs about Model/Sort.v (C09) *)
 From Coq Require Import Lia Sorting.Sorted Sorting.Permutation.
-From Zeno Require Import Base Sort.
+From Zeno Require Import Base BaseP Sort.
 
 (* ---------- total-preorder comparisons ---------- *)
 Record tpc {A} (c:A->A->comparison) : Prop := {
@@ -368,10 +368,10 @@ Proof.
   intros ks off lim rows Ho Hl. unfold order_limit_offset, slice_spec.
   set (l1 := match ks with [] => rows | _ => sort_rows ks rows end).
   assert (E2 : (if 0 <? off then offset_rows off l1 else l1) = skipz (Z.max 0 off) l1).
-  { unfold skipz, offset_rows. rewrite offset_from_skipn, Z.sub_0_r. rewrite Z.max_r by lia.
+  { unfold offset_rows. rewrite skipz_skipn, offset_from_skipn, Z.sub_0_r. rewrite Z.max_r by lia.
     destruct (Z.ltb_spec 0 off); auto. replace off with 0 by lia. reflexivity. }
   rewrite E2. destruct lim as [n|]; auto.
-  unfold limit_rows, firstz. rewrite limit_from_firstn, Z.sub_0_r. rewrite (Z.max_r 0 n); [reflexivity|]. apply Hl. reflexivity.
+  unfold limit_rows. rewrite firstz_firstn, limit_from_firstn, Z.sub_0_r. rewrite (Z.max_r 0 n); [reflexivity|]. apply Hl. reflexivity.
 Qed.
 
 Lemma firstn_incl {A} : forall n (l:list A), incl (firstn n l) l.
